@@ -400,6 +400,9 @@ func (v *Verifier) lookupFunc(pkgPath, target string) *ssa.Function {
 	if sp == nil {
 		return nil
 	}
+	if i := strings.Index(target, "#"); i >= 0 {
+		target = target[:i] // "#k": a further contract (another view) of the same function
+	}
 	parts := strings.Split(target, "$")
 	base := parts[0]
 	var fn *ssa.Function
@@ -794,48 +797,129 @@ func (v *Verifier) VerifyFunc(cs *ContractSet, spec *FuncSpec) (res *FuncResult)
 		}
 		sort.Strings(res.Trusted)
 	}()
-	st := newState()
-	fr := &Frame{fn: fn, regs: map[ssa.Value]*Val{}, cellOf: map[*ssa.Alloc]int{}, spec: spec, cs: cs, params: map[string]*Val{},
-		loops: analyseLoops(fn), free: map[*ssa.FreeVar]*Val{}}
-	for _, p := range fn.Params {
-		val := freshVal(p.Type(), "in."+p.Name(), nil)
-		fr.regs[p] = val
-		fr.params[p.Name()] = val
-		r.assumeWF(st, val, nil)
-		r.assumeRanges(st, val)
+	// case splits ("cases EXPR in {v1, v2, ...}"): one symbolic execution per combination, with EXPR == v as a known fact
+	type caseSplit struct {
+		expr *SExpr
+		vals []*SExpr
+		text string
 	}
-	for _, fv := range fn.FreeVars {
-		// captured variables are pointers to the enclosing function's variables: model as boxes
-		val := freshVal(fv.Type(), "free."+fv.Name(), nil)
-		st.assume(Gt(val.L[0], IntLit(0)))
-		fr.free[fv] = val
+	var splits []caseSplit
+	for _, c := range spec.Clauses {
+		if c.Kind != "cases" {
+			continue
+		}
+		i := strings.Index(c.Text, " in ")
+		lb, rb := strings.Index(c.Text, "{"), strings.LastIndex(c.Text, "}")
+		if i < 0 || lb < i || rb < lb {
+			res.Err = "cases EXPR in {v1, v2, ...}"
+			return res
+		}
+		ex, err := ParseSExpr(strings.TrimSpace(c.Text[:i]))
+		if err != nil {
+			res.Err = err.Error()
+			return res
+		}
+		cs0 := caseSplit{expr: ex, text: strings.TrimSpace(c.Text[:i])}
+		for _, vtxt := range strings.Split(c.Text[lb+1:rb], ",") {
+			ve, err := ParseSExpr(strings.TrimSpace(vtxt))
+			if err != nil {
+				res.Err = err.Error()
+				return res
+			}
+			cs0.vals = append(cs0.vals, ve)
+		}
+		splits = append(splits, cs0)
 	}
-	env := r.specEnv(st, fr, "pre")
-	env.old = st
-	for _, c := range spec.ClausesOf("requires") {
-		st.assume(env.evalBool(c.Expr))
+	combos := [][]int{{}}
+	for _, sp := range splits {
+		var next [][]int
+		for _, c := range combos {
+			for vi := range sp.vals {
+				next = append(next, append(append([]int(nil), c...), vi))
+			}
+		}
+		combos = next
 	}
-	for _, c := range spec.ClausesOf("assume") {
-		st.assume(env.evalBool(c.Expr))
-		r.note("assume clause in contract of " + fname + ": " + c.Text)
+	for _, combo := range combos {
+		st := newState()
+		fr := &Frame{fn: fn, regs: map[ssa.Value]*Val{}, cellOf: map[*ssa.Alloc]int{}, spec: spec, cs: cs, params: map[string]*Val{},
+			loops: analyseLoops(fn), free: map[*ssa.FreeVar]*Val{}}
+		for _, p := range fn.Params {
+			val := freshVal(p.Type(), "in."+p.Name(), nil)
+			fr.regs[p] = val
+			fr.params[p.Name()] = val
+			r.assumeWF(st, val, nil)
+			r.assumeRanges(st, val)
+		}
+		for _, fv := range fn.FreeVars {
+			// captured variables are pointers to the enclosing function's variables: model as boxes
+			val := freshVal(fv.Type(), "free."+fv.Name(), nil)
+			st.assume(Gt(val.L[0], IntLit(0)))
+			fr.free[fv] = val
+		}
+		env := r.specEnv(st, fr, "pre")
+		env.old = st
+		for _, c := range spec.ClausesOf("requires") {
+			st.assume(env.evalBool(c.Expr))
+		}
+		for _, c := range spec.ClausesOf("assume") {
+			st.assume(env.evalBool(c.Expr))
+			r.note("assume clause in contract of " + fname + ": " + c.Text)
+		}
+		fr.entry = st.clone()
+		res.CoverHyps = append([]*Term(nil), st.pc...)
+		fr.ret = func(fr *Frame, st2 *State, rv *Val) {
+			r.retPaths++
+			penv := r.specEnv(st2, fr, "post")
+			penv.result = rv
+			penv = penv.with(r.resultVars(spec, fn.Signature, rv, nil))
+			for _, c := range spec.ClausesOf("ensures") {
+				g := penv.evalBool(c.Expr)
+				r.oblige(st2, fmt.Sprintf("ensures%d", c.Ord), c.Props, fmt.Sprintf("return in block %d (%s)", fr.retBlock.Index, fr.retBlock.Comment), g)
+				last := r.obligs[len(r.obligs)-1]
+				last.Env = penv
+				last.Spec = spec
+				last.Group = fmt.Sprintf("%s#ret%d", fname, r.retPaths)
+			}
+		}
+		skip := false
+		r.caseTag = ""
+		for si, vi := range combo {
+			r.caseTag += fmt.Sprintf("[%s=%s]", splits[si].text, splits[si].vals[vi].String())
+			cenv := r.specEnv(st, fr, "pre")
+			cenv.old = st
+			lhs := cenv.eval(splits[si].expr)
+			rhs := cenv.eval(splits[si].vals[vi])
+			eqt := cenv.equal(splits[si].expr, lhs, rhs)
+			st.assume(eqt)
+			if st.infeasible() {
+				skip = true
+			}
+		}
+		// re-evaluate the precondition under the case facts: inadmissible combinations are skipped
+		for _, p := range st.pc {
+			if st.decide(p).IsFalse() {
+				skip = true
+			}
+		}
+		if skip {
+			continue
+		}
+		fr.entry = st.clone()
+		r.execBlock(st, fr, fn.Blocks[0], nil)
 	}
-	fr.entry = st.clone()
-	res.CoverHyps = append([]*Term(nil), st.pc...)
-	fr.ret = func(fr *Frame, st2 *State, rv *Val) {
-		r.retPaths++
-		penv := r.specEnv(st2, fr, "post")
-		penv.result = rv
-		penv = penv.with(r.resultVars(spec, fn.Signature, rv, nil))
-		for _, c := range spec.ClausesOf("ensures") {
-			g := penv.evalBool(c.Expr)
-			r.oblige(st2, fmt.Sprintf("ensures%d", c.Ord), c.Props, fmt.Sprintf("return in block %d (%s)", fr.retBlock.Index, fr.retBlock.Comment), g)
-			last := r.obligs[len(r.obligs)-1]
-			last.Env = penv
-			last.Spec = spec
-			last.Group = fmt.Sprintf("%s#ret%d", fname, r.retPaths)
+	// the nopanic clause exists even when no explicit panic is reachable at all
+	if spec.Has("nopanic") || spec.Has("safe") {
+		found := false
+		for _, o := range r.obligs {
+			if o.Clause == "nopanic" {
+				found = true
+			}
+		}
+		if !found {
+			r.obligs = append(r.obligs, &Oblig{Func: fname, Clause: "nopanic", Props: spec.Props, Goal: True, Trivial: true, Sub: "no explicit panic reachable"})
 		}
 	}
-	r.execBlock(st, fr, fn.Blocks[0], nil)
 	return res
 }
 
